@@ -43,6 +43,8 @@ void xv_env(void);
    && (((in_gj & capacity) != 0 && in_gj >= start && in_gj < i) ? gB_v == in_gjv : 1))
 #define XV_HAVOC_GROW i = nondet_size(); gA_v = nondet_uptr(); gB_v = nondet_uptr(); xv_scratch = nondet_uptr() /* XV_CELL */
 
+/* the same invariant as cbmc loop-contract clauses for the Route D cross-check (goto-instrument --dfcc) */
+#define XV_LOOP_CONTRACT_GROW __CPROVER_assigns(i, gA_v, gB_v, xv_scratch, xv_clock) __CPROVER_loop_invariant(XV_INV_GROW) __CPROVER_decreases(bottom - i)
 size_t in_gj; entry in_gjv; size_t in_top, in_bottom; unsigned in_c;
 #include "lowered.h"
 
